@@ -1564,6 +1564,32 @@ class LuaMinifyTokenWriter(BaseLuaWriter):
         )
         self._last_was_name_keyword_number = False
         self._last_was_newline = True
+        # The previous token written on the current line, if any.
+        self._last_token = None
+
+    def _would_fuse(self, token):
+        """Determines whether a token written directly after the previous
+        one would be read together with it as something else.
+
+        Word-like neighbors are handled by the caller. This handles symbols:
+        '-' '-' is a comment, '[' '[[' or '[' '[=' opens a different long
+        bracket, '..' '...' re-tokenizes, and a '.' after '..' or after a
+        number is read as part of it (x.. .5, 1 ..x).
+        """
+        if self._last_token is None:
+            return False
+        prev = self._last_token.code
+        code = token.code
+        if prev.endswith(b'-') and code.startswith(b'-'):
+            return True
+        if prev.endswith(b'[') and (code.startswith(b'[[') or
+                                    code.startswith(b'[=')):
+            return True
+        if code.startswith(b'.') and (
+                prev.endswith(b'.') or
+                self._last_token.matches(lexer.TokNumber)):
+            return True
+        return False
 
     def to_lines(self):
         """
@@ -1598,6 +1624,7 @@ class LuaMinifyTokenWriter(BaseLuaWriter):
                 # handle PICO-8's newline-dependent language extensions,
                 # especially short-ifs.
                 self._last_was_name_keyword_number = False
+                self._last_token = None
                 if not self._last_was_newline:
                     yield b'\n'
                 self._last_was_newline = True
@@ -1621,15 +1648,20 @@ class LuaMinifyTokenWriter(BaseLuaWriter):
                 self._last_was_newline = False
                 yield token.code
             elif token.matches(lexer.TokNumber):
-                if self._last_was_name_keyword_number:
+                if (self._last_was_name_keyword_number or
+                        self._would_fuse(token)):
                     yield b' '
                 self._last_was_name_keyword_number = True
                 self._last_was_newline = False
                 yield token.code
             else:
+                if self._would_fuse(token):
+                    yield b' '
                 self._last_was_name_keyword_number = token.code in b'])}'
                 self._last_was_newline = False
                 yield token.code
+            if not token.matches(lexer.TokNewline):
+                self._last_token = token
 
 
 class LuaFormatterTokenWriter(LuaASTEchoWriter):
